@@ -18,6 +18,9 @@ type Trace struct {
 	f *os.File
 	w *bufio.Writer
 	N int
+	// AutoFlush writes every event through to the file at once (for drivers whose
+	// process may die inside the code under test).
+	AutoFlush bool
 }
 
 func NewTrace(path string) *Trace {
@@ -36,6 +39,9 @@ func (t *Trace) Emit(ev map[string]interface{}) {
 	t.w.Write(b)
 	t.w.WriteByte('\n')
 	t.N++
+	if t.AutoFlush {
+		t.w.Flush()
+	}
 }
 
 func (t *Trace) Close() {
